@@ -233,7 +233,8 @@ KDR(u_) ==
        !.f = MkF(fk, NCols(m.M), SMul(Half, SInv(st[1]))),
        !.gs = <<MkF(gk, NRows(m.M), SMul(Half, st[2]))>>,
        !.x0 = KStart(NCols(m.M))] :
-    m \in KMats, fk \in KF, gk \in KG, st \in {<<q(1, 1), q(1, 2)>>, <<q(1, 2), q(1, 1)>>}, lam \in {QOne} }
+    m \in KMats, fk \in KF, gk \in KG,
+    st \in {<<q(1, 1), q(1, 2)>>} \cup (IF Thorough THEN {<<q(1, 2), q(1, 1)>>} ELSE {}), lam \in {QOne} }
 KDRCat(u_) == { I \in KDR(0) : DRAdmissible(I) }
 \* forward-backward: f + g(Lx) + h(x), h = 1/4 |x - t|^2  (beta = 1/2)
 KFB(u_) ==
